@@ -53,4 +53,5 @@ CONSTANTS
  Regulate_ = FALSE
  OptFlips = {"auto_pub", "offline"}
  FreeIdSends = FALSE
+ LateSends = FALSE
  Msgs = {"m1"}
